@@ -171,6 +171,21 @@ CHECKS = {
         note='Injectivity on real outputs follows from the parse-back clause (the text determines the value) and is model-checked '
              'for the reference serialiser; CPython float repr is trusted for the digits of non-integral numbers.',
         ref='DESIGN.md 5 C14'),
+    'C13': dict(
+        technique='TLA+ spec of the number text layer (BareNumText: repr layout, Cleanup, decimal denotation, literal / float / integer '
+                  'grammars) + TLC model checking over all short decimals x all exponents (MC_NumText) + TLC judgement of real '
+                  'stringifications and parse results (Trace_NumText)',
+        text='TLC checks for every decimal with <= 2 (3) significant digits and every exponent -323..309 that the clean-up of '
+             'Python\'s repr layout keeps the denotation, removes the fraction exactly for integral fixed-notation values and yields '
+             'a valid source literal and JSON number. Real doubles (boundary values, powers of ten over the whole range, integers '
+             'around 2^53 / 1e15 / 1e16 / 1e21, subnormals, -0, uniform random bit patterns, short decimals) are stringified by '
+             'concatenation, stringNew, arrayJoin and systemLog; TLC checks that the four texts agree, denote the number, carry no '
+             'zero fraction, parse back to the number with numberParseFloat and, for x >= 0, as a source literal. Random strings and '
+             'numeric near-misses go through numberParseFloat / numberParseInt (radix 2..36 and invalid radices): number texts must '
+             'give their value, everything else null, never a non-finite value.',
+        note='That float(repr(x)) == x and that repr is the shortest such text is CPython\'s guarantee (trusted base). Texts with '
+             'underscores / non-ASCII digits / 0x-style prefixes are an allowed set (A25).',
+        ref='DESIGN.md 5 C13'),
 }
 
 NOT_YET = 'check not built yet in this round (work in progress; see DESIGN.md section 9 build order)'
